@@ -46,6 +46,16 @@ func c08Child(args []string) {
 			out.Flush()
 			continue
 		}
+		if f[0] == "fxframe" {
+			fmt.Fprintln(out, c08FrameChild(f[2]))
+			out.Flush()
+			if runtime.ReadMemStats(&ms); ms.HeapAlloc > 1<<30 {
+				debug.SetGCPercent(100)
+				runtime.GC()
+				debug.SetGCPercent(-1)
+			}
+			continue
+		}
 		var typ int
 		fmt.Sscan(f[1], &typ)
 		body := lib.UnHex(f[2])
@@ -103,6 +113,18 @@ func c08Start() (*c08Pool, error) {
 
 // ask returns the child's answer, or ("died"/"hang", 0) after which the pool must be restarted.
 func (p *c08Pool) ask(line string) (string, uint64) {
+	a := p.askRaw(line)
+	if a == "died" || a == "hang" {
+		return a, 0
+	}
+	var res string
+	var n uint64
+	fmt.Sscan(a, &res, &n)
+	return res, n
+}
+
+// askRaw returns the child's answer line, or "died"/"hang" after which the pool must be restarted.
+func (p *c08Pool) askRaw(line string) string {
 	type ans struct {
 		s string
 		e error
@@ -121,16 +143,13 @@ func (p *c08Pool) ask(line string) (string, uint64) {
 		if a.e != nil {
 			p.cmd.Process.Kill()
 			p.cmd.Wait()
-			return "died", 0
+			return "died"
 		}
-		var res string
-		var n uint64
-		fmt.Sscan(a.s, &res, &n)
-		return res, n
+		return strings.TrimSpace(a.s)
 	case <-time.After(20 * time.Second):
 		p.cmd.Process.Kill()
 		p.cmd.Wait()
-		return "hang", 0
+		return "hang"
 	}
 }
 func (p *c08Pool) stop() { p.in.Close(); p.cmd.Wait() }
@@ -141,6 +160,8 @@ type c08Case struct {
 	Body  string `json:"body_hex"`
 	Kind  string `json:"kind,omitempty"`
 	Mut   string `json:"mutation,omitempty"`
+	// Entry "fxframe": one call of RawPacket.ReadFrom / RequestPacket.ReadFrom of the filexfer codec
+	Frame *c08Frame `json:"frame,omitempty"`
 }
 
 type countingReader struct {
@@ -152,7 +173,7 @@ func (c *countingReader) Read(p []byte) (int, error) { n, err := c.r.Read(p); c.
 
 func checkC08(c *lib.Ctx) {
 	r := c.R
-	r.Rule = "every decoding entry point of both codecs (request decoder, attribute block, name list / response decoders of the filexfer codec, packet framing) on: every truncation of valid encodings of every packet kind, every 4-byte window replaced by 0, 1, n-1, n+1, 2^31-1, 2^32-1, every type byte 0..255, PRNG bytes; each decode runs in a child process (GC off, 3 GiB address-space limit, 20 s deadline): outcome class ok/err/panic compared with the Lean interpreter of the regenerated tables, bytes allocated <= 64*len + 64 KiB; framing: long and zero frames refused after exactly 4 bytes, short frames reported; non-trivial = mutated (not the valid original) input"
+	r.Rule = "every decoding entry point of both codecs (request decoder, attribute block, name list / response decoders of the filexfer codec, packet framing) on: every truncation of valid encodings of every packet kind, every 4-byte window replaced by 0, 1, n-1, n+1, 2^31-1, 2^32-1, every type byte 0..255, PRNG bytes; each decode runs in a child process (GC off, 3 GiB address-space limit, 20 s deadline): outcome class ok/err/panic compared with the Lean interpreter of the regenerated tables, bytes allocated <= 64*len + 64 KiB; framing: long and zero frames refused after exactly 4 bytes, short frames reported; filexfer framing (RawPacket.ReadFrom, RequestPacket.ReadFrom): limit in {16, 1024, default, 256 KiB, 1 MiB, PRNG} x receive buffer capacity in {nil, 3, 4, 5, 64, limit-1, limit, limit+1, 2x, 4x limit} with len 0 and len = cap x declared length in {0, 1, 4, 5, 6, 9, 10, limit and capacity -1/+0/+1, 2x, 4x limit (+1), 2^31-1, 2^31, 2^32-1} x stream {complete + next frame, complete, one byte short, header only}: over-limit and zero frames refused with exactly 4 bytes consumed, admissible frames delivered whole and without touching the next frame, allocation <= 64*consumed + limit + 64 KiB; non-trivial = mutated (not the valid original) input"
 	sftp.VerifFxRegisterExtensions()
 	var cases []c08Case
 	if c.Replay != "" {
@@ -254,6 +275,7 @@ func checkC08(c *lib.Ctx) {
 			k := c06Kinds[c.Rand.Intn(len(c06Kinds))]
 			cases = append(cases, c08Case{Entry: []string{"main", "fx"}[i%2], Typ: int(k.Typ), Body: lib.Hex(b), Kind: k.Name, Mut: "random"})
 		}
+		cases = append(cases, c08FrameCases(c)...)
 	}
 
 	pool, err := c08Start()
@@ -269,7 +291,33 @@ func checkC08(c *lib.Ctx) {
 		isRequest[k.Name] = k.Request
 	}
 	var lines, impl []string
+	frameFails := map[string]int{}
+	defer func() {
+		if len(frameFails) > 0 {
+			r.Note("filexfer framing: failing cases per class (limit / buffer capacity / declared length): %v", frameFails)
+		}
+	}()
 	for _, cs := range cases {
+		if cs.Entry == "fxframe" {
+			if cs.Frame == nil {
+				r.Fail(lib.Failure{Kind: "tie", Key: "replay", What: "fxframe case without frame parameters"})
+				continue
+			}
+			line := "fxframe 0 " + cs.Frame.spec()
+			ans := pool.askRaw(line)
+			f := *cs.Frame
+			r.Case(line, f.Cap > 0 || f.Declared > f.Limit || int64(f.Avail) != int64(f.Declared))
+			r.Hist(c08FrameBucket(f))
+			if c08FrameJudge(r, cs, ans) {
+				frameFails[c08FrameBucket(f)]++
+			}
+			if ans == "died" || ans == "hang" {
+				if pool, err = c08Start(); err != nil {
+					return
+				}
+			}
+			continue
+		}
 		line := fmt.Sprintf("%s %d %s", cs.Entry, cs.Typ, cs.Body)
 		res, alloc := pool.ask(line)
 		r.Case(line, cs.Mut != "")
@@ -411,4 +459,10 @@ func checkC08(c *lib.Ctx) {
 	}
 	r.Sample(map[string]any{"entry": "fxattrs", "body": "800000000fffffff", "note": "extended flag and a count of 268 million with no data behind it"})
 	r.Sample(cases[len(cases)/2])
+	for _, cs := range cases {
+		if cs.Frame != nil && cs.Frame.Cap > int(cs.Frame.Limit) && cs.Frame.Declared > cs.Frame.Limit && int(cs.Frame.Declared) <= cs.Frame.Cap {
+			r.Sample(cs)
+			break
+		}
+	}
 }
